@@ -221,3 +221,59 @@ def run_suite(chk, rng, configs, footprint, deep=(), expose=(), nontrivial=None,
     stats["action_coverage"] = cov_total
     stats["samples"] = samples
     return stats
+
+
+
+# ====================================================================== many-to-many pair with flush / reload (OrmManyToMany.tla)
+MM_MEM = ["Append", "Insert", "Remove", "Pop", "Replace", "SetItem", "Reverse"]
+
+
+def run_mm(chk, rng, st, name, bidir, acts, depth, invs, props=(), init="both", nl=2, nr=2, nrandom=100, footprint=None):
+    """dump + replay of one OrmManyToMany configuration; accumulates into the stats dict `st` of run_suite"""
+    ls = ["l%d" % i for i in range(1, nl + 1)]
+    rs = ["r%d" % i for i in range(1, nr + 1)]
+    consts = dict(Ls=set(tlc.q(x) for x in ls), Rs=set(tlc.q(x) for x in rs), Bidir=bidir, Acts=set(tlc.q(a) for a in acts),
+                  InitMode=tlc.q(init), MaxDepth=depth)
+    cfgt = tlc.cfg(constants=consts, init="InitEmit", invariants=list(invs), properties=list(props), view="View",
+                   action_constraints=["Emit"], constraints=["Depth"])
+    g = graph.dump("OrmManyToMany", cfgt, os.path.join(chk.work, "dump-" + name), timeout=1500)
+    r = g.tlc
+    if r.violated:
+        chk.violation({"spec": "OrmManyToMany", "action": "TLC", "invariant": str(r.violated), "config": name},
+                      "TLC: %s violated in OrmManyToMany.tla (config %s)" % (r.violated, name))
+    cov = action_counts(g)
+    for a in (footprint or acts):
+        if not cov.get(a):
+            chk.machinery("vacuous: action %s never taken in OrmManyToMany config %s" % (a, name))
+    walks, info = graph.plan_tours(g, depth, rng)
+    walks += graph.random_walks(g, nrandom, depth, rng)
+    ext = []
+    for w in walks:     # drain: end with commit + reload when the last state has that edge
+        last = g.edges[w[-1]]
+        if last[1]["a"] != "CommitReload":
+            for ei in g.out[last[2]]:
+                if g.edges[ei][1]["a"] == "CommitReload":
+                    w = w + [ei]
+                    break
+        ext.append(w)
+    walks = ext
+    from checks.ormgraph_driver import DriverMM, mappingmm
+    mappingmm(bidir)
+    steps, mism = graph.replay(g, walks, lambda wid, wd: DriverMM(wid, wd, ls, rs, bidir), os.path.join(chk.work, "replay-" + name), nproc=16)
+    for m in mism:
+        act = m["act"] if isinstance(m["act"], dict) else {"a": m["act"]}
+        chk.violation({"spec": "OrmManyToMany", "kind": "conformance", "action": act.get("a"), "config": name, "ret": act.get("ret")},
+                      "real many-to-many pair (%s) diverges from OrmManyToMany.tla at %s%s: %s" % (
+                          "bidirectional" if bidir else "unidirectional", act.get("a"), tuple(act.get("arg", ())), m["mismatch"]), m)
+    st["states"] += r.distinct
+    st["transitions"] += r.generated
+    st["edges"] += len(g.edges)
+    st["walks"] += len(walks)
+    st["steps"] += steps
+    nt = sum(1 for e in g.edges if e[1]["a"] in ("Flush", "CommitReload") and len(e[1]["dml"]) > 0) if "Flush" in acts else \
+        sum(1 for e in g.edges if e[1]["a"] in ("Remove", "Pop", "Replace", "SetItem", "Reverse"))
+    st["nontrivial"] += nt
+    st["per_config"][name] = dict(states=r.distinct, transitions=r.generated, edges=len(g.edges), walks=len(walks), steps=steps,
+                                  mismatches=len(mism), depth=r.depth, plan=info, nontrivial=nt, action_coverage=cov)
+    if walks:
+        st["samples"].append({"config": name, "walk": fmt_walk(g, walks[len(walks) // 2])})
